@@ -20,7 +20,13 @@ func (d Directive) BodyError(msg string) *jerr.JApiError {
 }
 
 func (d Directive) BodyErrorIndex(msg string, i uint) *jerr.JApiError {
-	return d.makeError(msg, d.BodyCoords.File(), d.BodyCoords.begin+bytes.Index(i))
+	index := d.BodyCoords.begin + bytes.Index(i)
+	if f := d.BodyCoords.File(); f != nil && int(index) > len(f.Content()) {
+		// The position doesn't belong to this file (the schema library reported
+		// it for a text of its own, i.e. a generated example): point at the body.
+		return d.BodyError(msg)
+	}
+	return d.makeError(msg, d.BodyCoords.File(), index)
 }
 
 func (d Directive) ParameterError(msg string) *jerr.JApiError {
